@@ -164,9 +164,12 @@ static void fill_probe(ws_t* w, int kind, rng_t* r) {
   for (uint64_t i = 0; i < w->N; i++) {
     if (kind == 0)
       w->probe[i] = (int64_t)i + 1;  // injective and non-zero: determines the signed permutation
+    else if (kind == 2)
+      w->probe[i] = ((int64_t)i + 1) << 32;  // injective, every coefficient a multiple of 2^32 (still exact in a double up to N = 65536)
     else
       w->probe[i] = rng_sbits(r, 48);  // doubles hold it exactly; differences stay < 2^50
   }
+  if (kind == 3) structure_words(r, (uint64_t*)w->probe, w->N, 48);  // random with structure: scaled / run / periodic / zero
 }
 
 // far-away representative of residue r modulo 2N
@@ -205,6 +208,12 @@ static void exhaustive_kernels(uint64_t N, int with_far) {
     // a second, random probe on a few residues of the block (values up to 2^48)
     fill_probe(&w, 1, crng());
     for (int t = 0; t < 4; t++) check_all(&w, (int64_t)(blk * B + (uint64_t)rng_range(crng(), 0, (int64_t)B - 1)), 1);
+    // the scaled injective probe and structured random probes (odd and even residues)
+    for (int kind = 2; kind <= 3; kind++)
+      for (int t = 0; t < 4; t++) {
+        fill_probe(&w, kind, crng());
+        check_all(&w, (int64_t)(blk * B + (uint64_t)rng_range(crng(), 0, (int64_t)B - 1)) | (t & 1), kind);
+      }
     sample("all %" PRIu64 " residues p of the block checked on 11 kernels (7 for even p) with probe a_i=i+1", B);
     ws_free(&w);
     cntf("exhaustive_residues:N=%" PRIu64, B, N);
